@@ -72,7 +72,7 @@ def make_case(rng, dim, nr, nt, nz, base):
     c["temps"] = []
     for (a, b, cc) in c["prof"]:
         c["temps"].append([c["T0"] + a + b * ((r - ri) / (ro - ri)) + cc * ((r - ri) / (ro - ri)) ** 2 for (r, th, z) in nodes])
-    c["probe"] = ["qcoords", "volumes"]
+    c["probe"] = ["qcoords", "volumes"] + (["disp", "quadrature", "mesh"] if dim == 1 else [])
     return c
 
 
@@ -223,6 +223,41 @@ def run(ctx):
         ctx.count("solve:%dD" % c["dim"])
         if r.get("outcome") != "ok":
             findings.append((c, "the tube solve failed: %s %s" % (r.get("outcome"), r.get("msg", "")[:160])))
+    # ---- certificate: the 1D results against the axisymmetric finite-element model, in exact arithmetic
+    HEADER1D = ("From Coq Require Import QArith List.\nFrom SV Require Import model.FE1D.\nImport ListNotations.\nOpen Scope Q_scope.")
+    fe_terms, fe_owner = [], []
+    for i, (c, r) in enumerate(zip(cases, res)):
+        if c["dim"] != 1 or r.get("outcome") != "ok" or "quadrature" not in r:
+            continue
+        k = len(c["times"]) - 1
+        m = c["material"]
+        lamv = m["E"] * m["nu"] / ((1 + m["nu"]) * (1 - 2 * m["nu"]))
+        muv = m["E"] / (2 * (1 + m["nu"]))
+        rs = [x[0] for x in arr(r["mesh"]["p"])]
+        us = list(np.ravel(arr(r["disp"]["disp_x"])[k]))
+        xis, wts = np.ravel(arr(r["quadrature"]["points"])), np.ravel(arr(r["quadrature"]["weights"]))
+        thq = arr(r["quad"]["thermal_strain_xx"])[k]
+        S = [arr(r["quad"]["stress" + n])[k] for n in ("_xx", "_yy", "_zz")]
+        scale = (float(max(np.max(np.abs(x)) for x in S)) + 1e-6 * m["E"]) * c["r"]
+        ql = lambda xs: "[" + "; ".join(q_lit(qfrac(x)) for x in xs) + "]"
+        gs = "[" + "; ".join("mkG %s %s" % (q_lit(qfrac(a)), q_lit(qfrac(b))) for a, b in zip(xis, wts)) + "]"
+        ds = "[" + "; ".join("[" + "; ".join("mkD %s %s %s" % (q_lit(qfrac(t)), q_lit(qfrac(lamv)), q_lit(qfrac(muv))) for t in row) + "]" for row in thq) + "]"
+        impl_s = "[" + "; ".join("[" + "; ".join("(%s, %s, %s)" % tuple(q_lit(qfrac(S[j][e][g])) for j in range(3)) for g in range(len(xis))) + "]"
+                                   for e in range(len(rs) - 1)) + "]"
+        ez = q_lit(qfrac(c["dtop"][k] / c["h"]))
+        pk = q_lit(qfrac(c["pressure"][k] if c["pressure"] else 0.0))
+        args = "%s %s %s %s" % (gs, ql(rs), ql(us), ds)
+        fe_terms.append("forallb (small (1#100000000) %s) (residual %s %s %s)" % (q_lit(qfrac(scale)), pk, ez, args))
+        fe_owner.append((i, "the stored 1D displacements do not satisfy the discrete equilibrium equations of the axisymmetric model"))
+        fe_terms.append("close_stresses (1#1000000000) %s (all_stresses %s %s) %s" % (q_lit(qfrac(scale / c["r"])), ez, args, impl_s))
+        fe_owner.append((i, "the stored 1D stresses are not Hooke's law on the strains of the stored displacements"))
+        fe_terms.append("small (1#1000000000) %s (2 * %s * elem_axial %s %s - %s)" % (
+            q_lit(qfrac(scale * c["r"] * 10)), q_lit(qfrac(math.pi)), ez, args, q_lit(qfrac(uv(r["force"][k])))))
+        fe_owner.append((i, "the reported 1D axial force is not 2 pi times the integral of r s_zz"))
+    fe_fail = coq_eval_cases("c03fe", HEADER1D, fe_terms, shard=12) if fe_terms else []
+    for kk in fe_fail:
+        findings.append((cases[fe_owner[kk][0]], fe_owner[kk][1]))
+    ctx.oblige("corr/axisymmetric-finite-element-certificate (%d terms)" % len(fe_terms), "corr", not fe_fail, "%d terms fail" % len(fe_fail))
     for fam in fams:
         idx = fam["1D"] + fam["2D"] + [fam["3D"], fam["2Dfor3D"], fam["1Dmid"], fam["indexed"], fam["noindex"], fam["idle"]]
         if any(res[i].get("outcome") != "ok" for i in idx):
